@@ -22,6 +22,10 @@ main(int argc, char** argv)
             stats = true;
             continue;
         }
+        if (!strcmp(argv[i], "--engine") && i + 1 < argc) {
+            st.engine = argv[++i];
+            continue;
+        }
         std::vector<VhTok> tape;
         if (!fe::read_tape(argv[i], tape)) {
             printf("REPLAY %s unreadable\n", argv[i]);
